@@ -223,17 +223,17 @@ def _check_array(lens):
 BOUNDED = [
     Stage('B1:array-literal-shapes', 'C18', _array_cases, _check_array,
           'array literals with 1..4 rows of every combination of lengths 1..3 (120 shapes) in three contexts: rectangular accepted, ragged rejected',
-          exhaustive=True, parallel=False),
+          exhaustive=True, parallel=False, case_timeout=5.0),
     Stage('B1:token-soups', 'C18', _soup_cases, _check_soup,
           'all token strings of length <= 3 over a 30-token alphabet (27 930) plus 20 000 random of length 4..6 (quick) / all of length 4 '
           '(810 000, thorough): only the formula-syntax error escapes; text outside the grammar (spec recogniser) is rejected',
           classify=_classify_soup, max_report=30, exact_file='known_findings_data/C18_token_soups.json',
-          exact_applies=lambda case: len(case) <= 4, case_key=lambda case: SP.text_of([ALPHABET[i] for i in case])),
+          exact_applies=lambda case: len(case) <= 4, case_key=lambda case: SP.text_of([ALPHABET[i] for i in case]), case_timeout=5.0),
     Stage('B1:single-edits-and-random-strings', 'C18', _edit_cases, _check_text,
           'every single delete / insert / replace of 29 pieces in 14 valid formulas, plus random printable strings (4000 quick / 80 000 '
-          'thorough): only the formula-syntax error escapes', classify=_classify_text, max_report=30),
+          'thorough): only the formula-syntax error escapes', classify=_classify_text, max_report=30, case_timeout=5.0),
     Stage('B1:numeric-literals', 'C18', _literal_cases, _check_literal,
-          '320 numeric literals (leading zeros, decimals, exponents): accepted with their numeric value', parallel=False),
+          '320 numeric literals (leading zeros, decimals, exponents): accepted with their numeric value', parallel=False, case_timeout=5.0),
 ]
 
 PROPERTIES = {
